@@ -165,7 +165,8 @@ def run_instance(prop, name, P, tier, seed, budget):
                                   "timed_out", "cex", "exc", "witnesses", "functions", "solver_queries", "solver_s",
                                   "unknown_reasons")})
     out["stubs"] = list(stubs.STUBS_IN_FORCE)
-    out["plugin_stats"] = {"bitops": dict(stubs.bitops.STATS), "arith": dict(stubs.arith.STATS), "fmtint": dict(stubs.fmtint.STATS), "fpexact": dict(stubs.fpexact.STATS)}
+    out["plugin_stats"] = {"bitops": dict(stubs.bitops.STATS), "arith": dict(stubs.arith.STATS), "fmtint": dict(stubs.fmtint.STATS), "fpexact": dict(stubs.fpexact.STATS),
+                           "seqwindow": dict(stubs.seqwindow.STATS)}
     out["excluded_regions"] = regions
     # --- verdict
     if res.refuted:
